@@ -47,6 +47,16 @@ def load_se():
     for name in list(sys.modules):
         if name == "svgelements" or name.startswith("svgelements."):
             del sys.modules[name]
+    # numpy / scipy / PIL are absent from the repo's environment; the library probes for them with a
+    # try-import inside hot functions. A None entry makes that probe fail at once (same ImportError,
+    # same pure-Python path) instead of searching sys.path on every call.
+    for absent in ("numpy", "scipy", "scipy.integrate", "scipy.special", "PIL"):
+        if absent not in sys.modules:
+            try:
+                __import__(absent)
+                raise RuntimeError("%s is importable: the checks assume the pinned pure-Python environment" % absent)
+            except ImportError:
+                sys.modules[absent] = None
     import svgelements.svgelements as se  # noqa
 
     got = os.path.realpath(se.__file__)
